@@ -9,12 +9,14 @@
    presult:  POk f n        Decode returned a frame and drained n bytes
              PNeedMore      Decode returned (nil, nil), nothing drained
              PErr           Decode returned an error the dispatcher answers by closing the connection
-             PErrReply f n  Decode drained n bytes and returned (frame, err) for a two-way request:
-                            handleError replies with a codec exception and Dispatch RETURNS without
-                            closing; the rest of the buffer waits for the next read.
+             PErrReply f n  Decode drained n bytes and returned (frame, err) for a two-way request on a server
+                            connection: handleError answers with an exception response, the connection stays
+                            open and Dispatch goes on with the following frames (the shape after the repair of
+                            conn.go, read from the source as Gen/CodecSrc.v dispatch_continues_after_reply;
+                            before it Dispatch RETURNED here and left the buffer until the next read).
    Fuel exhaustion is the distinct flag `stuck` (an endless Dispatch loop); it is proved unreachable
    for prefix-stable framers. *)
-From Coq Require Import List NArith Lia ZifyBool ZifyNat ZifyN Bool.
+From Coq Require Import List NArith Lia ZifyBool ZifyNat ZifyN Bool PeanoNat.
 From MV Require Import Lib.Bytes.
 Import ListNotations.
 
@@ -42,7 +44,7 @@ Fixpoint drain (fuel : nat) (s : cstate) : cstate :=
       | POk f n => drain k {| buf := skipn n (buf s); out := out s ++ [EFrame f]; dead := dead s; stuck := stuck s |}
       | PNeedMore => s
       | PErr => {| buf := []; out := out s ++ [EClose]; dead := true; stuck := stuck s |}
-      | PErrReply f n => {| buf := skipn n (buf s); out := out s ++ [EReply f]; dead := dead s; stuck := stuck s |}
+      | PErrReply f n => drain k {| buf := skipn n (buf s); out := out s ++ [EReply f]; dead := dead s; stuck := stuck s |}
       end
     end
   end.
@@ -67,15 +69,13 @@ Proof.
   - apply (st_rep St) in E. destruct E as [_ E]. rewrite E in H. discriminate.
 Qed.
 
-Definition has_reply (s : cstate) : Prop := exists f, In (EReply f) (out s).
-
 Lemma drain_out_mono fuel : forall s e, In e (out s) -> In e (out (drain fuel s)).
 Proof.
   induction fuel as [|k IH]; intros s e H; cbn [drain]; destruct (buf s) as [|x r] eqn:Eb; auto.
   destruct (parse (x :: r)); cbn [out]; auto.
   - apply IH. cbn [out]. apply in_or_app. now left.
   - apply in_or_app. now left.
-  - apply in_or_app. now left.
+  - apply IH. cbn [out]. apply in_or_app. now left.
 Qed.
 
 Lemma feed_out_mono s c e : In e (out s) -> In e (out (feed s c)).
@@ -89,8 +89,10 @@ Proof.
   destruct fuel' as [|k']; [lia|]. cbn [drain].
   destruct (buf s) as [|x r] eqn:Eb; [reflexivity|].
   destruct (parse (x :: r)) as [f n| | |f n] eqn:Ep; try reflexivity.
-  apply (st_ok St) in Ep. destruct Ep as [Hn _].
-  apply IH; [|lia]. cbn [buf]. rewrite skipn_length. cbn [length] in *. lia.
+  - apply (st_ok St) in Ep. destruct Ep as [Hn _].
+    apply IH; [|lia]. cbn [buf]. rewrite skipn_length. cbn [length] in *. lia.
+  - apply (st_rep St) in Ep. destruct Ep as [Hn _].
+    apply IH; [|lia]. cbn [buf]. rewrite skipn_length. cbn [length] in *. lia.
 Qed.
 
 Lemma drain_not_stuck (St : stable) : forall fuel s, (length (buf s) < fuel)%nat ->
@@ -99,8 +101,10 @@ Proof.
   induction fuel as [|k IH]; intros s Hl; [lia|]. cbn [drain].
   destruct (buf s) as [|x r] eqn:Eb; [reflexivity|].
   destruct (parse (x :: r)) as [f n| | |f n] eqn:Ep; try reflexivity.
-  apply (st_ok St) in Ep. destruct Ep as [Hn _].
-  rewrite IH; [reflexivity|]. cbn [buf]. rewrite skipn_length. cbn [length] in *. lia.
+  - apply (st_ok St) in Ep. destruct Ep as [Hn _].
+    rewrite IH; [reflexivity|]. cbn [buf]. rewrite skipn_length. cbn [length] in *. lia.
+  - apply (st_rep St) in Ep. destruct Ep as [Hn _].
+    rewrite IH; [reflexivity|]. cbn [buf]. rewrite skipn_length. cbn [length] in *. lia.
 Qed.
 
 Lemma skipn_app_le {A} n (a e : list A) : (n <= length a)%nat -> skipn n (a ++ e) = skipn n a ++ e.
@@ -118,47 +122,44 @@ Lemma drain_err k s : buf s <> [] -> parse (buf s) = PErr ->
   drain (S k) s = {| buf := []; out := out s ++ [EClose]; dead := true; stuck := stuck s |}.
 Proof. intros H E. cbn [drain]. destruct (buf s) eqn:Eb; [congruence|]. now rewrite E. Qed.
 Lemma drain_rep k s f n : buf s <> [] -> parse (buf s) = PErrReply f n ->
-  drain (S k) s = {| buf := skipn n (buf s); out := out s ++ [EReply f]; dead := dead s; stuck := stuck s |}.
+  drain (S k) s = drain k {| buf := skipn n (buf s); out := out s ++ [EReply f]; dead := dead s; stuck := stuck s |}.
 Proof. intros H E. cbn [drain]. destruct (buf s) eqn:Eb; [congruence|]. now rewrite E. Qed.
 
 Lemma app_not_nil {A} (a e : list A) : a <> [] -> a ++ e <> [].
 Proof. destruct a; [congruence|discriminate]. Qed.
 
-(* two consecutive reads = one read of the concatenation, unless a reply-error occurred (then both runs contain it) *)
+(* two consecutive reads = one read of the concatenation *)
 Lemma drain_then_feed (St : stable) : forall fuel s c, (length (buf s) < fuel)%nat -> dead s = false ->
-  feed (drain fuel s) c = drain (S (length (buf s ++ c))) (with_buf s (buf s ++ c))
-  \/ (has_reply (drain fuel s) /\ has_reply (drain (S (length (buf s ++ c))) (with_buf s (buf s ++ c)))).
+  feed (drain fuel s) c = drain (S (length (buf s ++ c))) (with_buf s (buf s ++ c)).
 Proof.
   induction fuel as [|k IH]; intros s c Hl Hd; [lia|].
   destruct (buf s) as [|x r] eqn:Eb.
-  - left. rewrite drain_nil by exact Eb. unfold feed. rewrite Hd, Eb. reflexivity.
+  - rewrite drain_nil by exact Eb. unfold feed. rewrite Hd, Eb. reflexivity.
   - assert (Hne : buf s <> []) by (rewrite Eb; discriminate).
     assert (Hne2 : buf (with_buf s ((x :: r) ++ c)) <> []) by (cbn [with_buf buf app]; discriminate).
     rewrite <- Eb in *.
-    destruct (parse (buf s)) as [f n| | |f n] eqn:Ep.
-    + (* POk *)
-      pose proof (st_ok St _ _ _ Ep) as [Hn Hext].
-      rewrite (drain_ok k s f n Hne Ep).
-      set (s1 := {| buf := skipn n (buf s); out := out s ++ [EFrame f]; dead := dead s; stuck := stuck s |}).
-      assert (Hl1 : (length (buf s1) < k)%nat).
-      { unfold s1. cbn [buf]. rewrite skipn_length. lia. }
-      specialize (IH s1 c Hl1 Hd).
-      rewrite (drain_ok _ (with_buf s (buf s ++ c)) f n Hne2 (Hext c)).
-      cbn [with_buf buf out dead stuck]. rewrite skipn_app_le by lia.
-      replace (drain (length (buf s ++ c)) {| buf := skipn n (buf s) ++ c; out := out s ++ [EFrame f]; dead := dead s; stuck := stuck s |})
-        with (drain (S (length (buf s1 ++ c))) (with_buf s1 (buf s1 ++ c))); [exact IH|].
-      unfold with_buf, s1. cbn [out dead stuck buf].
+    assert (Step : forall ev n, (0 < n <= length (buf s))%nat ->
+      let s1 := {| buf := skipn n (buf s); out := out s ++ [ev]; dead := dead s; stuck := stuck s |} in
+      feed (drain k s1) c =
+      drain (length (buf s ++ c)) {| buf := skipn n (buf s) ++ c; out := out s ++ [ev]; dead := dead s; stuck := stuck s |}).
+    { intros ev n Hn s1.
+      assert (Hl1 : (length (buf s1) < k)%nat) by (unfold s1; cbn [buf]; rewrite skipn_length; lia).
+      rewrite (IH s1 c Hl1 Hd). unfold with_buf, s1. cbn [out dead stuck buf].
       symmetry. apply (drain_fuel St).
       * cbn [buf]. lia.
-      * rewrite !app_length, skipn_length. lia.
-    + (* PNeedMore *) left. rewrite (drain_needmore k s Ep). unfold feed. rewrite Hd. reflexivity.
-    + (* PErr *) left. rewrite (drain_err k s Hne Ep). unfold feed at 1. cbn [dead].
+      * rewrite !app_length, skipn_length. lia. }
+    destruct (parse (buf s)) as [f n| | |f n] eqn:Ep.
+    + pose proof (st_ok St _ _ _ Ep) as [Hn Hext].
+      rewrite (drain_ok k s f n Hne Ep).
+      rewrite (drain_ok _ (with_buf s (buf s ++ c)) f n Hne2 (Hext c)).
+      cbn [with_buf buf out dead stuck]. rewrite skipn_app_le by lia. apply (Step (EFrame f) n Hn).
+    + rewrite (drain_needmore k s Ep). unfold feed. rewrite Hd. reflexivity.
+    + rewrite (drain_err k s Hne Ep). unfold feed at 1. cbn [dead].
       rewrite (drain_err _ (with_buf s (buf s ++ c)) Hne2 (st_err St _ Ep c)). reflexivity.
-    + (* PErrReply: both runs contain the reply *)
-      right. pose proof (st_rep St _ _ _ Ep) as [Hn Hext]. split.
-      * exists f. rewrite (drain_rep k s f n Hne Ep). cbn [out]. apply in_or_app. right. now left.
-      * exists f. rewrite (drain_rep _ (with_buf s (buf s ++ c)) f n Hne2 (Hext c)).
-        cbn [out]. apply in_or_app. right. now left.
+    + pose proof (st_rep St _ _ _ Ep) as [Hn Hext].
+      rewrite (drain_rep k s f n Hne Ep).
+      rewrite (drain_rep _ (with_buf s (buf s ++ c)) f n Hne2 (Hext c)).
+      cbn [with_buf buf out dead stuck]. rewrite skipn_app_le by lia. apply (Step (EReply f) n Hn).
 Qed.
 
 Lemma feed_alive s c : dead s = false -> feed s c = drain (S (length (buf s ++ c))) (with_buf s (buf s ++ c)).
@@ -166,49 +167,32 @@ Proof. intros H. unfold feed. now rewrite H. Qed.
 Lemma feed_dead s c : dead s = true -> feed s c = s.
 Proof. intros H. unfold feed. now rewrite H. Qed.
 
-Lemma feed_feed_or (St : stable) s a b :
-  feed (feed s a) b = feed s (a ++ b) \/ (has_reply (feed s a) /\ has_reply (feed s (a ++ b))).
+Lemma feed_feed (St : stable) s a b : feed (feed s a) b = feed s (a ++ b).
 Proof.
   destruct (dead s) eqn:Hd.
-  - left. rewrite !(feed_dead s) by exact Hd. reflexivity.
+  - rewrite !(feed_dead s) by exact Hd. reflexivity.
   - rewrite (feed_alive s a Hd), (feed_alive s (a ++ b) Hd).
     pose proof (drain_then_feed St (S (length (buf s ++ a))) (with_buf s (buf s ++ a)) b) as H.
     cbn [with_buf buf dead] in H. specialize (H ltac:(lia) Hd).
     rewrite <- app_assoc in H. unfold with_buf in *. cbn [out dead stuck] in *. exact H.
 Qed.
 
-Definition no_reply (s : cstate) : Prop := ~ has_reply s.
-
-Lemma no_reply_prefix (St : stable) s a b : no_reply (feed s (a ++ b)) -> no_reply (feed s a).
-Proof.
-  intros H [f Hf]. apply H. destruct (feed_feed_or St s a b) as [E|[_ E]]; [|exact E].
-  exists f. rewrite <- E. apply feed_out_mono. exact Hf.
-Qed.
-
-Lemma feed_feed (St : stable) s a b : no_reply (feed s (a ++ b)) -> feed (feed s a) b = feed s (a ++ b).
-Proof. intros H. destruct (feed_feed_or St s a b) as [E|[_ E]]; [exact E|]. contradiction. Qed.
-
 Lemma seg_independent_from (St : stable) : forall chunks s c0,
-  no_reply (feed s (c0 ++ concat chunks)) ->
   fold_left feed chunks (feed s c0) = feed s (c0 ++ concat chunks).
 Proof.
-  induction chunks as [|c cs IH]; intros s c0 H; cbn [fold_left concat] in *.
+  induction chunks as [|c cs IH]; intros s c0; cbn [fold_left concat].
   - now rewrite app_nil_r.
-  - rewrite app_assoc in H. rewrite (feed_feed St).
-    + rewrite IH by exact H. now rewrite <- app_assoc.
-    + eapply (no_reply_prefix St); eauto.
+  - rewrite (feed_feed St). rewrite IH. now rewrite <- app_assoc.
 Qed.
 
 (* THE segmentation theorem: for a prefix-stable framer, every way of cutting a byte stream into
-   reads yields exactly the state of delivering it in one read: same frames in the same order each
-   once, same residue in the buffer (an incomplete frame consumes nothing), connection closed in
-   one iff in the other and after the same frames; the Dispatch loop never spins.
-   (Hypothesis no_reply: the whole-delivery run met no reply-and-return error, see the header.) *)
+   reads yields exactly the state of delivering it in one read: same frames and error replies in the same
+   order each once, same residue in the buffer (an incomplete frame consumes nothing), connection closed in
+   one iff in the other and after the same frames; the Dispatch loop never spins. *)
 Theorem seg_independent (St : stable) : forall chunks,
-  no_reply (feed init (concat chunks)) ->
   fold_left feed chunks init = feed init (concat chunks).
 Proof.
-  intros chunks H. pose proof (seg_independent_from St chunks init [] H) as E.
+  intros chunks. pose proof (seg_independent_from St chunks init []) as E.
   cbn [app] in E. rewrite <- E. f_equal.
 Qed.
 
@@ -218,28 +202,67 @@ Proof.
   rewrite (drain_not_stuck St); [reflexivity|]. cbn [with_buf buf]. lia.
 Qed.
 
-(* framers that never answer with reply-and-return: the hypothesis of seg_independent is always met *)
-Definition never_reply : Prop := forall b f n, parse b <> PErrReply f n.
-
-Lemma drain_no_reply (Nr : never_reply) : forall fuel s, no_reply s -> no_reply (drain fuel s).
+(* ---- connection-level outcome of an error, and several connections ---------------------------------------
+   handleError: a decode error either closes THIS connection (EClose, dead, buffer dropped) or answers THIS
+   request (EReply) and the connection goes on.  Nothing else is emitted for an error. *)
+Lemma drain_outcome : forall fuel s, exists evs,
+  out (drain fuel s) = out s ++ evs /\
+  (dead (drain fuel s) = false -> dead s = false /\ ~ In EClose evs) /\
+  (dead s = false -> dead (drain fuel s) = true -> buf (drain fuel s) = [] /\ exists pre, evs = pre ++ [EClose] /\ ~ In EClose pre).
 Proof.
-  assert (Happ : forall (o : list event) e, (forall f, e <> EReply f) ->
-                 (~ exists f, In (EReply f) o) -> ~ exists f, In (EReply f) (o ++ [e])).
-  { intros o e He Ho [g Hg]. apply in_app_or in Hg. destruct Hg as [Hg|[Hg|[]]].
-    - apply Ho. now exists g.
-    - eapply He; eauto. }
-  induction fuel as [|k IH]; intros s H; cbn [drain]; destruct (buf s) as [|x r] eqn:Eb; auto.
-  destruct (parse (x :: r)) as [f n| | |f n] eqn:Ep; auto.
-  - apply IH. unfold no_reply, has_reply. cbn [out]. apply Happ; [discriminate|exact H].
-  - unfold no_reply, has_reply. cbn [out]. apply Happ; [discriminate|exact H].
-  - exfalso. eapply Nr; eauto.
+  induction fuel as [|k IH]; intros s; cbn [drain]; destruct (buf s) as [|x r] eqn:Eb.
+  - exists []. rewrite app_nil_r. repeat split; auto; congruence.
+  - exists []. cbn [out dead]. rewrite app_nil_r. repeat split; auto; congruence.
+  - exists []. rewrite app_nil_r. repeat split; auto; congruence.
+  - destruct (parse (x :: r)) as [f n| | |f n] eqn:Ep.
+    + destruct (IH {| buf := skipn n (x :: r); out := out s ++ [EFrame f]; dead := dead s; stuck := stuck s |}) as [evs [H1 [H2 H3]]].
+      cbn [out dead] in *. exists (EFrame f :: evs). rewrite H1, <- app_assoc. split; [reflexivity|]. split.
+      * intros Hd. destruct (H2 Hd) as [A B]. split; [exact A|]. intros [C|C]; [discriminate|auto].
+      * intros Hs Hd. destruct (H3 Hs Hd) as [A [pre [B C]]]. split; [exact A|]. exists (EFrame f :: pre). split; [now rewrite B|].
+        intros [D|D]; [discriminate|auto].
+    + exists []. rewrite app_nil_r. repeat split; auto; congruence.
+    + exists [EClose]. cbn [out dead buf]. split; [reflexivity|]. split; [discriminate|]. intros _ _. split; [reflexivity|].
+      exists []. split; [reflexivity|]. intros [].
+    + destruct (IH {| buf := skipn n (x :: r); out := out s ++ [EReply f]; dead := dead s; stuck := stuck s |}) as [evs [H1 [H2 H3]]].
+      cbn [out dead] in *. exists (EReply f :: evs). rewrite H1, <- app_assoc. split; [reflexivity|]. split.
+      * intros Hd. destruct (H2 Hd) as [A B]. split; [exact A|]. intros [C|C]; [discriminate|auto].
+      * intros Hs Hd. destruct (H3 Hs Hd) as [A [pre [B C]]]. split; [exact A|]. exists (EReply f :: pre). split; [now rewrite B|].
+        intros [D|D]; [discriminate|auto].
 Qed.
 
-Theorem seg_independent_nr (St : stable) (Nr : never_reply) : forall chunks,
-  fold_left feed chunks init = feed init (concat chunks).
+(* one read on a live connection: it ends closed exactly when the last thing that happened is EClose *)
+Theorem feed_outcome : forall s c, dead s = false -> exists evs,
+  out (feed s c) = out s ++ evs /\
+  (dead (feed s c) = false -> ~ In EClose evs) /\
+  (dead (feed s c) = true -> buf (feed s c) = [] /\ exists pre, evs = pre ++ [EClose] /\ ~ In EClose pre).
 Proof.
-  intros chunks. apply (seg_independent St). unfold feed. cbn [dead init].
-  apply (drain_no_reply Nr). intros [f []].
+  intros s c Hd. rewrite (feed_alive s c Hd).
+  destruct (drain_outcome (S (length (buf s ++ c))) (with_buf s (buf s ++ c))) as [evs [H1 [H2 H3]]].
+  cbn [with_buf out dead] in *. exists evs. split; [exact H1|]. split.
+  - intros H. now apply H2.
+  - intros H. now apply H3.
+Qed.
+
+(* several connections: a state per connection id, a history of (connection, bytes read) *)
+Definition mstate := nat -> cstate.
+Definition mfeed (ms : mstate) (i : nat) (c : bytes) : mstate :=
+  fun j => if Nat.eqb j i then feed (ms i) c else ms j.
+Definition mrun (ms : mstate) (hist : list (nat * bytes)) : mstate :=
+  fold_left (fun m ic => mfeed m (fst ic) (snd ic)) hist ms.
+
+(* whatever connection i receives - malformed or not - no other connection's state changes *)
+Theorem mfeed_local : forall ms i c j, j <> i -> mfeed ms i c j = ms j.
+Proof. intros ms i c j H. unfold mfeed. destruct (Nat.eqb j i) eqn:E; [apply Nat.eqb_eq in E; contradiction|reflexivity]. Qed.
+
+(* after any interleaved history, the state of connection j is the one it reaches on its own reads alone *)
+Theorem mrun_projection : forall hist ms j,
+  mrun ms hist j = fold_left feed (map snd (filter (fun ic => Nat.eqb (fst ic) j) hist)) (ms j).
+Proof.
+  induction hist as [|[i c] r IH]; intros ms j; [reflexivity|].
+  change (mrun ms ((i, c) :: r) j) with (mrun (mfeed ms i c) r j). rewrite IH.
+  cbn [filter fst]. unfold mfeed. rewrite (Nat.eqb_sym i j). destruct (Nat.eqb j i) eqn:E.
+  - apply Nat.eqb_eq in E. subst j. cbn [map fold_left snd]. reflexivity.
+  - reflexivity.
 Qed.
 
 (* ---- streams of complete frames followed by an incomplete tail ------------------------- *)
@@ -284,9 +307,7 @@ Theorem seg_valid_stream (St : stable) : forall fs t chunks,
 Proof.
   intros fs t chunks Hfs Ht Hc.
   pose proof (feed_valid_from St fs init t eq_refl eq_refl Hfs Ht) as E. cbn [init out stuck app] in E.
-  assert (Hnr : no_reply (feed init (concat chunks))).
-  { rewrite Hc, E. intros [f Hf]. cbn [out] in Hf. apply in_map_iff in Hf. destruct Hf as [? [? _]]. discriminate. }
-  rewrite (seg_independent St chunks Hnr). rewrite Hc. exact E.
+  rewrite (seg_independent St chunks). rewrite Hc. exact E.
 Qed.
 
 End Seg.
